@@ -280,61 +280,44 @@ theorem C20_abstract_alias_rejected (st : St) (c : ClassDef) (a : Nat) (ha : c.a
     (hab : c.abstract = true) : initSubclass st c = (st, some .abstractAlias) := by
   simp [initSubclass, ha, hab]
 
-/-- Whatever the pop order of the path set: `Service[reference]` only ever returns a concrete class of the world
-that carries the reference (never an abstract one, never some other provider), and the state stays sound. -/
-theorem C20_lookup_sound (w : World) (st : St) (iface : ClassId) (r : Ref) (order : List Mod)
+/-- `Service[reference]` only ever returns a concrete class of the world that carries the reference (never an abstract
+one, never some other provider), and the state stays sound. -/
+theorem C20_lookup_sound (w : World) (st : St) (iface : ClassId) (r : Ref)
     (hs : StSound (InWorld w) st) :
-    StSound (InWorld w) (get w st iface r order).1 ∧
-      ∀ i, (get w st iface r order).2 = .ok i → ∃ c, InWorld w c ∧ c.abstract = false ∧ r ∈ refs c ∧ c.id = i :=
-  get_sound w st iface r order hs
+    StSound (InWorld w) (get w st iface r).1 ∧
+      ∀ i, (get w st iface r).2 = .ok i → ∃ c, InWorld w c ∧ c.abstract = false ∧ r ∈ refs c ∧ c.id = i :=
+  get_sound w st iface r hs
 
-/-- An unknown reference (carried by no concrete class of the world) is an error for every pop order — the
-missing-provider error unless an import on the way raised first — and never yields some other provider. -/
-theorem C20_missing (w : World) (st : St) (iface : ClassId) (r : Ref) (order : List Mod)
+/-- An unknown reference (carried by no concrete class of the world) is an error — the missing-provider error unless an
+import on the way raised first — and never yields some other provider. -/
+theorem C20_missing (w : World) (st : St) (iface : ClassId) (r : Ref)
     (hs : StSound (InWorld w) st) (hun : ∀ c, InWorld w c → c.abstract = false → r ∉ refs c) :
-    ∃ e, (get w st iface r order).2 = .error e := by
-  cases h : (get w st iface r order).2 with
+    ∃ e, (get w st iface r).2 = .error e := by
+  cases h : (get w st iface r).2 with
   | error e => exact ⟨e, rfl⟩
   | ok i =>
-    obtain ⟨c, hw, ha, hr, _⟩ := (get_sound w st iface r order hs).2 i h
+    obtain ⟨c, hw, ha, hr, _⟩ := (get_sound w st iface r hs).2 i h
     exact absurd hr (hun c hw ha)
 
 /-- …and with nothing to import (no search paths registered for the interface, alias reference) it is exactly
 the missing-provider error. -/
 theorem C20_missing_exact (w : World) (st : St) (iface : ClassId) (a : Nat)
     (hp : (getBank iface st.banks).paths = []) (hl : lookupRef (.alias a) (getBank iface st.banks).provider = none) :
-    (get w st iface (.alias a) []).2 = .error .missing := by
-  simp [get, hl, todoPaths, arrange, refPaths, hp, getLoop, finish, sortPaths]
+    (get w st iface (.alias a)).2 = .error .missing := by
+  simp [get, searchFuel, getLoop, hl, nextPath, searchList, refPaths, hp, finish, sortPaths]
 
 /-- In a world without registration defects (`worldClean`: no alias on an abstract class, no reference shared by two
-class identities) whose registered search paths exist, an unknown reference raises exactly the missing-provider error —
-from every sound state (any import history) and under every pop order. -/
-theorem C20_missing_clean (w : World) (st : St) (iface : ClassId) (r : Ref) (order : List Mod)
-    (hw : worldClean w = true) (hs : StSound (InWorld w) st)
-    (hp : (getBank iface st.banks).paths.all (fun p => importable w p.mod) = true)
+class identities) whose declared search paths exist, an unknown reference raises exactly the missing-provider error —
+from every state reached by imports and lookups (`Inv`, `C20_history_invariant`). -/
+theorem C20_missing_clean (w : World) (st : St) (iface : ClassId) (r : Ref)
+    (hw : worldClean w = true) (hpo : pathsOk w = true) (hI : Inv w st)
     (hun : ∀ c, InWorld w c → c.abstract = false → r ∉ refs c) :
-    (get w st iface r order).2 = .error .missing := by
-  have hunk : ∀ (st' : St), StSound (InWorld w) st' → lookupRef r (getBank iface st'.banks).provider = none := by
-    intro st' hs'
-    cases hl : lookupRef r (getBank iface st'.banks).provider with
-    | none => rfl
-    | some i =>
-      obtain ⟨c, hc, ha, hr, _⟩ := getBank_sound hs' iface r i (lookupRef_mem hl)
-      exact absurd hr (hun c hc ha)
-  unfold get
-  rw [hunk st hs]
-  simp only
-  have hexp : ∀ p ∈ todoPaths (getBank iface st.banks) r order, p.explicit = true → importable w p.mod = true := by
-    intro p hm he
-    exact (List.all_eq_true.1 hp) p (mem_todoPaths hm he)
-  have h1 := getLoop_sound w iface r (todoPaths (getBank iface st.banks) r order) st hs
-  have h2 := getLoop_clean hw iface r (todoPaths (getBank iface st.banks) r order) st hs hexp
-  cases hl : getLoop w iface r st (todoPaths (getBank iface st.banks) r order) with
-  | mk st' e =>
-    rw [hl] at h1 h2
-    simp only at h2
-    subst h2
-    simp only [finish, hunk st' h1]
+    (get w st iface r).2 = .error .missing := by
+  obtain ⟨_, hend⟩ := get_end hw hpo hI iface r
+  rcases hend with ⟨c, hc, _⟩ | ⟨hm, _, _⟩
+  · obtain ⟨d, hd, ha, hr, _⟩ := (get_sound w st iface r hI.sound).2 c hc
+    exact absurd hr (hun d hd ha)
+  · exact hm
 
 /-- non-vacuity of `C20_missing_clean`: a clean two-package world, the state after importing the interface, an unknown
 alias and an unknown qualified name -/
@@ -345,17 +328,19 @@ example :
         (⟨1, some 5⟩, ⟨[], [⟨⟨⟨1, some 5⟩, 1⟩, some 5, false, false, [⟨⟨0, none⟩, 0⟩], []⟩]⟩),
         (⟨2, some 6⟩, ⟨[], [⟨⟨⟨2, some 6⟩, 1⟩, some 6, false, false, [⟨⟨0, none⟩, 0⟩], []⟩]⟩) ]
     let st := runImports w St.empty [⟨0, none⟩]
-    worldClean w = true ∧ (getBank ⟨⟨0, none⟩, 0⟩ st.banks).paths.all (fun p => importable w p.mod) = true ∧
-      (get w st ⟨⟨0, none⟩, 0⟩ (.alias 7) [⟨1, none⟩, ⟨2, none⟩]).2 = .error .missing ∧
-      (get w st ⟨⟨0, none⟩, 0⟩ (.qual ⟨⟨1, some 5⟩, 9⟩) [⟨2, none⟩, ⟨1, none⟩]).2 = .error .missing ∧
-      (get w st ⟨⟨0, none⟩, 0⟩ (.alias 6) [⟨2, none⟩, ⟨1, none⟩]).2 = .ok ⟨⟨2, some 6⟩, 1⟩ := by decide
+    worldClean w = true ∧ pathsOk w = true ∧
+      (get w st ⟨⟨0, none⟩, 0⟩ (.alias 7)).2 = .error .missing ∧
+      (get w st ⟨⟨0, none⟩, 0⟩ (.qual ⟨⟨1, some 5⟩, 9⟩)).2 = .error .missing ∧
+      (get w st ⟨⟨0, none⟩, 0⟩ (.alias 6)).2 = .ok ⟨⟨2, some 6⟩, 1⟩ := by decide
 
-/-- Lazy lookup at full strength (repaired code, fix C20-sorted-search-paths): outcome and resulting state do not
-depend on the iteration order of the path set (string hashing, PYTHONHASHSEED, insertion history). -/
-theorem C20_lookup_order_free (w : World) (st : St) (iface : ClassId) (r : Ref) (o1 o2 : List Mod)
-    (h1 : validOrder (getBank iface st.banks).paths o1 = true) (h2 : validOrder (getBank iface st.banks).paths o2 = true) :
-    get w st iface r o1 = get w st iface r o2 := by
-  simp only [get, todoPaths_order_free _ r o1 o2 h1 h2]
+/-- Lazy lookup (since fix C20-sorted-search-paths): whatever order the set `self.paths` hands out its elements in
+(string hashing, PYTHONHASHSEED, insertion history), `sorted(self.paths)` and with it the search list are the same;
+with `C20_lookup_state_equiv` so are outcome and resulting state of the lookup. -/
+theorem C20_lookup_order_free (b : Bank) (r : Ref) (ps : List PathE) (hp : ps.Perm b.paths) :
+    searchList ⟨b.provider, ps⟩ r = searchList b r ∧
+      ∀ searched, nextPath ⟨b.provider, ps⟩ r searched = nextPath b r searched := by
+  have h : searchList ⟨b.provider, ps⟩ r = searchList b r := by simp only [searchList, sortPaths_perm hp]
+  exact ⟨h, fun _ => by simp only [nextPath, h]⟩
 
 /-- the world of the (fixed) finding C20-F1: interface `Base(path=[pk1, pk2])` in module 0, `pk1/dup.py` and
 `pk2/dup.py` each defining a concrete class with alias `dup` (= 5) -/
@@ -370,13 +355,14 @@ def witnessState : St :=
   | some (st, _) => st
   | none => St.empty
 
-/-- `Bank.get` as it was before the fix: the search list is the set in its iteration order, unsorted -/
+/-- `Bank.get` as it was before the fix C20-F1: the search list is the set in its iteration order, unsorted (and built
+once) -/
 def getUnsorted (w : World) (st : St) (iface : ClassId) (r : Ref) (order : List Mod) : St × Res :=
   match lookupRef r (getBank iface st.banks).provider with
   | some c => (st, .ok c)
   | none =>
     let base := arrange (getBank iface st.banks).paths order
-    finish iface r (getLoop w iface r st (base ++ refPaths r base).reverse)
+    finish iface r (getLoopOnce w iface r st (base ++ refPaths r base).reverse)
 
 def C20_lookup_unsorted_full : Prop :=
   ∀ (w : World) (st : St) (iface : ClassId) (r : Ref) (o1 o2 : List Mod),
@@ -399,12 +385,12 @@ def uniqueRef (w : World) (r : Ref) : Bool :=
 
 /-- The same single class whatever was imported before, in whatever order: for every world in which the reference is
 carried by one class identity, any two lookups — from any two (sound) process states, i.e. after any two import
-histories, and under any pop orders — that return a class return the same class. -/
-theorem C20_lookup_single_class (w : World) (st st' : St) (iface iface' : ClassId) (r : Ref) (o1 o2 : List Mod)
+histories — that return a class return the same class. -/
+theorem C20_lookup_single_class (w : World) (st st' : St) (iface iface' : ClassId) (r : Ref)
     (hs : StSound (InWorld w) st) (hs' : StSound (InWorld w) st') (hu : uniqueRef w r = true) (i j : ClassId)
-    (h1 : (get w st iface r o1).2 = .ok i) (h2 : (get w st' iface' r o2).2 = .ok j) : i = j := by
-  obtain ⟨c, ⟨mc, dc, hmc, hcc⟩, hca, hcr, hci⟩ := (get_sound w st iface r o1 hs).2 i h1
-  obtain ⟨d, ⟨md, dd, hmd, hdd⟩, hda, hdr, hdi⟩ := (get_sound w st' iface' r o2 hs').2 j h2
+    (h1 : (get w st iface r).2 = .ok i) (h2 : (get w st' iface' r).2 = .ok j) : i = j := by
+  obtain ⟨c, ⟨mc, dc, hmc, hcc⟩, hca, hcr, hci⟩ := (get_sound w st iface r hs).2 i h1
+  obtain ⟨d, ⟨md, dd, hmd, hdd⟩, hda, hdr, hdi⟩ := (get_sound w st' iface' r hs').2 j h2
   simp only [uniqueRef, List.all_eq_true, List.mem_filter, List.mem_flatMap, beq_iff_eq, Bool.and_eq_true,
     Bool.not_eq_true', List.contains_eq_mem, decide_eq_true_eq] at hu
   rw [← hci, ← hdi]
@@ -412,33 +398,29 @@ theorem C20_lookup_single_class (w : World) (st st' : St) (iface iface' : ClassI
 
 /-- …in particular after any two import histories (any modules, any order, failing imports included) from a fresh
 process: the reference resolves to one and the same class or not at all. -/
-theorem C20_lookup_import_order (w : World) (ms ms' : List Mod) (iface iface' : ClassId) (r : Ref) (o1 o2 : List Mod)
+theorem C20_lookup_import_order (w : World) (ms ms' : List Mod) (iface iface' : ClassId) (r : Ref)
     (hu : uniqueRef w r = true) (i j : ClassId)
-    (h1 : (get w (runImports w St.empty ms) iface r o1).2 = .ok i)
-    (h2 : (get w (runImports w St.empty ms') iface' r o2).2 = .ok j) : i = j :=
-  C20_lookup_single_class w _ _ iface iface' r o1 o2 (runImports_sound w ms _ (stSound_empty _))
+    (h1 : (get w (runImports w St.empty ms) iface r).2 = .ok i)
+    (h2 : (get w (runImports w St.empty ms') iface' r).2 = .ok j) : i = j :=
+  C20_lookup_single_class w _ _ iface iface' r (runImports_sound w ms _ (stSound_empty _))
     (runImports_sound w ms' _ (stSound_empty _)) hu i j h1 h2
 
 /-- Lookup cannot tell apart two process states with the same bindings, the same *sets* of search paths and the same
 set of imported modules (`StEq`), however they were built up: same outcome — class or error — and again
 indistinguishable states (so this extends to any sequence of lookups). -/
-theorem C20_lookup_state_equiv (w : World) (st st' : St) (iface : ClassId) (r : Ref) (o o' : List Mod)
-    (h : StEq st st') (ho : validOrder (getBank iface st.banks).paths o = true)
-    (ho' : validOrder (getBank iface st'.banks).paths o' = true) :
-    (get w st iface r o).2 = (get w st' iface r o').2 ∧ StEq (get w st iface r o).1 (get w st' iface r o').1 :=
-  get_congr w iface r h ho ho'
+theorem C20_lookup_state_equiv (w : World) (st st' : St) (iface : ClassId) (r : Ref) (h : StEq st st') :
+    (get w st iface r).2 = (get w st' iface r).2 ∧ StEq (get w st iface r).1 (get w st' iface r).1 :=
+  get_congr w iface r h
 
-/-- Whatever the import order, at full strength (repaired code): if a list of `import` statements succeeds from a
-fresh process, then so does every permutation of it, and every later `Service[reference]` — by alias or by qualified
-name, known or unknown, under any iteration orders of the path sets — has the same outcome (the same class or the same
-error) after both. -/
+/-- Whatever the import order, at full strength: if a list of `import` statements succeeds from a fresh process, then
+so does every permutation of it, and every later `Service[reference]` — by alias or by qualified name, known or
+unknown — has the same outcome (the same class or the same error) after both. -/
 theorem C20_import_order_free (w : World) (ms ms' : List Mod) (hp : ms.Perm ms') (s : St)
     (hs : importAll w St.empty ms = some s) :
     ∃ s', importAll w St.empty ms' = some s' ∧ StEq s s' ∧
-      ∀ (iface : ClassId) (r : Ref) (o o' : List Mod), validOrder (getBank iface s.banks).paths o = true →
-        validOrder (getBank iface s'.banks).paths o' = true → (get w s iface r o).2 = (get w s' iface r o').2 := by
+      ∀ (iface : ClassId) (r : Ref), (get w s iface r).2 = (get w s' iface r).2 := by
   obtain ⟨s', hs', hE⟩ := importAll_perm w hp St.empty St.empty s (StEq.refl _) hs
-  exact ⟨s', hs', hE, fun iface r o o' ho ho' => (get_congr w iface r hE ho ho').1⟩
+  exact ⟨s', hs', hE, fun iface r => (get_congr w iface r hE).1⟩
 
 /-- non-vacuity of `C20_import_order_free`: three modules of two packages (an abstract intermediate in one of them)
 imported in two orders from a fresh process — both succeed, and the representations of the two states differ -/
@@ -457,40 +439,34 @@ example :
 
 /-- Nothing is ever consumed: a lookup keeps every binding, every search path of every bank (the path sets never
 shrink) and every `sys.modules` entry — whatever it was asked and however it ended. -/
-theorem C20_lookup_keeps_state (w : World) (st : St) (iface : ClassId) (r : Ref) (order : List Mod) :
-    StLe st (get w st iface r order).1 := get_le w st iface r order
+theorem C20_lookup_keeps_state (w : World) (st : St) (iface : ClassId) (r : Ref) :
+    StLe st (get w st iface r).1 := get_le w st iface r
 
 /-- Lookup-sequence independence for hits: once `Service[reference]` has returned a class, every later lookup of that
 reference returns the same class, whatever imports (failing ones included) and lookups (hits and misses, of any
 interface) happen in between. Together with `C20_lookup_single_class` (any two hits agree) the answer does not depend
 on the position in a sequence. -/
-theorem C20_lookup_stable (w : World) (st : St) (iface : ClassId) (r : Ref) (o o' : List Mod) (c : ClassId)
-    (ops : List HOp) (h : (get w st iface r o).2 = .ok c) :
-    (get w (runHist w (get w st iface r o).1 ops) iface r o').2 = .ok c := by
-  apply get_of_bound
-  exact ((runHist_le w ops _).1 iface).1 r c (get_ok_bound w st iface r o c h)
+theorem C20_lookup_stable (w : World) (st : St) (iface : ClassId) (r : Ref) (c : ClassId)
+    (ops : List HOp) (h : (get w st iface r).2 = .ok c) :
+    (get w (runHist w (get w st iface r).1 ops) iface r).2 = .ok c := by
+  rw [get_of_bound w _ iface r c (((runHist_le w ops _).1 iface).1 r c (get_ok_bound w st iface r c h))]
 
 /-- …and a hit anywhere in any history from a fresh process is the unique carrier of the reference. -/
-theorem C20_lookup_history (w : World) (ops ops' : List HOp) (iface iface' : ClassId) (r : Ref) (o o' : List Mod)
+theorem C20_lookup_history (w : World) (ops ops' : List HOp) (iface iface' : ClassId) (r : Ref)
     (hu : uniqueRef w r = true) (i j : ClassId)
-    (h1 : (get w (runHist w St.empty ops) iface r o).2 = .ok i)
-    (h2 : (get w (runHist w St.empty ops') iface' r o').2 = .ok j) : i = j :=
-  C20_lookup_single_class w _ _ iface iface' r o o' (runHist_sound w ops _ (stSound_empty _))
+    (h1 : (get w (runHist w St.empty ops) iface r).2 = .ok i)
+    (h2 : (get w (runHist w St.empty ops') iface' r).2 = .ok j) : i = j :=
+  C20_lookup_single_class w _ _ iface iface' r (runHist_sound w ops _ (stSound_empty _))
     (runHist_sound w ops' _ (stSound_empty _)) hu i j h1 h2
 
-/-- non-vacuity: in the witness world the qualified reference of `pk1.dup:Impl` is unique, the state after importing
-the interface is sound-by-construction input, both orders return that class; the alias `dup` is not unique and now
-resolves to the same class (`pk2.dup:Impl`, the later name in sorted order is popped first) under both orders -/
+/-- non-vacuity: in the witness world the qualified reference of `pk1.dup:Impl` is unique and resolves to that class
+from the state after importing the interface; the alias `dup` is not unique and resolves to `pk2.dup:Impl` (the later
+name in sorted order is searched first) -/
 example :
     uniqueRef witnessWorld (.qual ⟨⟨1, some 5⟩, 1⟩) = true ∧
-      (get witnessWorld witnessState ⟨⟨0, none⟩, 0⟩ (.qual ⟨⟨1, some 5⟩, 1⟩) [⟨1, none⟩, ⟨2, none⟩]).2
-        = .ok ⟨⟨1, some 5⟩, 1⟩ ∧
-      (get witnessWorld witnessState ⟨⟨0, none⟩, 0⟩ (.qual ⟨⟨1, some 5⟩, 1⟩) [⟨2, none⟩, ⟨1, none⟩]).2
-        = .ok ⟨⟨1, some 5⟩, 1⟩ ∧
+      (get witnessWorld witnessState ⟨⟨0, none⟩, 0⟩ (.qual ⟨⟨1, some 5⟩, 1⟩)).2 = .ok ⟨⟨1, some 5⟩, 1⟩ ∧
       uniqueRef witnessWorld (.alias 5) = false ∧
-      validOrder (getBank ⟨⟨0, none⟩, 0⟩ witnessState.banks).paths [⟨2, none⟩, ⟨1, none⟩] = true ∧
-      (get witnessWorld witnessState ⟨⟨0, none⟩, 0⟩ (.alias 5) [⟨1, none⟩, ⟨2, none⟩]).2 = .ok ⟨⟨2, some 5⟩, 1⟩ ∧
-      (get witnessWorld witnessState ⟨⟨0, none⟩, 0⟩ (.alias 5) [⟨2, none⟩, ⟨1, none⟩]).2 = .ok ⟨⟨2, some 5⟩, 1⟩ := by
+      (get witnessWorld witnessState ⟨⟨0, none⟩, 0⟩ (.alias 5)).2 = .ok ⟨⟨2, some 5⟩, 1⟩ := by
   decide
 
 /-- non-vacuity of `C20_bank_order` / `C20_collision_rejected`: an abstract intermediate, two aliased concrete classes -/
@@ -618,12 +594,12 @@ theorem C20_abstract_never_bound_any_order (tab : Tab) (ps ps' : List ProvStmt) 
   rw [← hr r] at hi
   exact C20_abstract_never_bound tab ps b hb r i hi
 
-/-- …and at the level of the process: whatever was imported or looked up before, by alias or by qualified name, under
-any iteration order, `Service[reference]` never returns a class that is abstract in that sense. -/
-theorem C20_lookup_never_abstract (tab : Tab) (wt : WorldT) (st : St) (iface : ClassId) (r : Ref) (order : List Mod)
-    (hs : StSound (InWorld (wt.toWorld tab)) st) (i : ClassId) (h : (get (wt.toWorld tab) st iface r order).2 = .ok i) :
+/-- …and at the level of the process: whatever was imported or looked up before, by alias or by qualified name,
+`Service[reference]` never returns a class that is abstract in that sense. -/
+theorem C20_lookup_never_abstract (tab : Tab) (wt : WorldT) (st : St) (iface : ClassId) (r : Ref)
+    (hs : StSound (InWorld (wt.toWorld tab)) st) (i : ClassId) (h : (get (wt.toWorld tab) st iface r).2 = .ok i) :
     ∃ m mt, (m, mt) ∈ wt ∧ ∃ s ∈ mt.classes, s.id = i ∧ r ∈ refs (s.toDef tab) ∧ isabstract tab s.k = false := by
-  obtain ⟨c, ⟨m, d, hmd, hc⟩, ha, hr, hi⟩ := (get_sound _ st iface r order hs).2 i h
+  obtain ⟨c, ⟨m, d, hmd, hc⟩, ha, hr, hi⟩ := (get_sound _ st iface r hs).2 i h
   simp only [WorldT.toWorld, List.mem_map] at hmd
   obtain ⟨⟨m', mt⟩, hmt, heq⟩ := hmd
   cases heq
@@ -651,67 +627,69 @@ example :
 /-! ## lookup histories on lazily searched provider packages -/
 
 /-- Every history from a fresh process in a defect-free world — imports in any order (failing ones too), lookups of
-any interface, hits and misses — reaches a state in which the classes of every imported module are registered, every
-binding comes from an imported module and every registered search path exists. -/
-theorem C20_history_invariant (w : World) (hw : worldClean w = true) (hpo : pathsOk w = true) (ops : List HOp) :
-    Inv w (runHist w St.empty ops) := inv_runHist hw hpo ops _ (inv_empty w)
+any interface, hits and misses — reaches a state in which the classes and the search paths of every imported module are
+registered and every binding and every search path comes from an imported module. -/
+theorem C20_history_invariant (w : World) (hw : worldClean w = true) (ops : List HOp) :
+    Inv w (runHist w St.empty ops) := inv_runHist hw ops _ (inv_empty w)
 
-/-- What a single lookup answers, in terms of the bank's lazy search state only (its bindings and its set of remaining
-search paths): a bound reference is answered from the table; an unbound one resolves exactly when the search list —
-the registered paths and the candidates the reference derives from them — covers a module defining it below the
-interface, and raises the missing-provider error otherwise.  Nothing else of the history matters. -/
+/-- How a single lookup ends (repaired `Bank.get`), in terms of the bank's lazy search state only: with the class bound,
+or with exactly the missing-provider error in a state whose search is exhausted — every module covered by an entry of
+the final search list (the registered paths, those registered on the way included, and the candidates the reference
+derives from them) is imported and none of them defines the reference below the interface.  A reference that the
+registered search paths let the lookup find (`found`) is answered with a class.  The number of iterations is bounded
+(`searchFuel`: every iteration searches a new module name). -/
 theorem C20_lookup_single_shot (w : World) (hw : worldClean w = true) (hpo : pathsOk w = true) (hpk : pkgsExist w = true)
-    (st : St) (hI : Inv w st) (iface : ClassId) (r : Ref) (o : List Mod)
-    (hn : lookupRef r (getBank iface st.banks).provider = none) :
-    (found w iface r (todoPaths (getBank iface st.banks) r o) = true → ∃ c, (get w st iface r o).2 = .ok c) ∧
-    (found w iface r (todoPaths (getBank iface st.banks) r o) = false → (get w st iface r o).2 = .error .missing) :=
-  get_unbound hw hpo hpk hI iface r o hn
+    (st : St) (hI : Inv w st) (iface : ClassId) (r : Ref) :
+    ((∃ c, (get w st iface r).2 = .ok c ∧ lookupRef r (getBank iface (get w st iface r).1.banks).provider = some c) ∨
+       ((get w st iface r).2 = .error .missing ∧ Closed w iface r (get w st iface r).1)) ∧
+    (found w iface r (searchList (getBank iface st.banks) r) = true → ∃ c, (get w st iface r).2 = .ok c) := by
+  refine ⟨?_, get_found_hit hw hpo hpk hI iface r⟩
+  rcases (get_end hw hpo hI iface r).2 with h | ⟨h1, _, h3⟩
+  · exact Or.inl h
+  · exact Or.inr ⟨h1, h3⟩
 
 /-- A reference that resolves single-shot resolves — to the same class — after every history: whatever imports (failing
 ones included) and lookups (misses, hits, repeated ones, other references, other interfaces) happen after any
 pre-history, the later answer is the answer the process would have given at once.  (The search state is never
 consumed: `C20_lookup_keeps_state`.) -/
 theorem C20_history_hit_stable (w : World) (hw : worldClean w = true) (hpo : pathsOk w = true) (hpk : pkgsExist w = true)
-    (pre ops : List HOp) (iface : ClassId) (r : Ref) (o o' : List Mod) (c : ClassId)
-    (ho' : validOrder (getBank iface (runHist w (runHist w St.empty pre) ops).banks).paths o' = true)
-    (h : (get w (runHist w St.empty pre) iface r o).2 = .ok c) :
-    (get w (runHist w (runHist w St.empty pre) ops) iface r o').2 = .ok c :=
-  get_hit_mono hw hpo hpk (C20_history_invariant w hw hpo pre)
-    (inv_runHist hw hpo ops _ (C20_history_invariant w hw hpo pre)) (runHist_le w ops _) iface r o o' ho' c h
+    (pre ops : List HOp) (iface : ClassId) (r : Ref) (c : ClassId)
+    (h : (get w (runHist w St.empty pre) iface r).2 = .ok c) :
+    (get w (runHist w (runHist w St.empty pre) ops) iface r).2 = .ok c :=
+  get_hit_mono hw hpo hpk (C20_history_invariant w hw pre)
+    (inv_runHist hw ops _ (C20_history_invariant w hw pre)) (runHist_le w ops _).2 iface r c h
 
 /-- History independence at full strength for discoverable provider packages (the layout of `forml.provider.*`:
 every provider in a sub-module named after its alias or listed in `__all__` of a package on the interface's search
 path): for every history of lookups and imports the answer for a reference — class or missing-provider error, alias
 or qualified name, known or unknown — equals the single-shot answer. -/
 theorem C20_history_independent (w : World) (hw : worldClean w = true) (hpo : pathsOk w = true) (hpk : pkgsExist w = true)
-    (pre ops : List HOp) (iface : ClassId) (hd : discoverable w (runHist w St.empty pre) iface = true) (r : Ref)
-    (o o' : List Mod) (ho : validOrder (getBank iface (runHist w St.empty pre).banks).paths o = true)
-    (ho' : validOrder (getBank iface (runHist w (runHist w St.empty pre) ops).banks).paths o' = true) :
-    (get w (runHist w (runHist w St.empty pre) ops) iface r o').2 = (get w (runHist w St.empty pre) iface r o).2 :=
-  get_history_free hw hpo hpk (C20_history_invariant w hw hpo pre) iface hd ops r o o' ho ho'
+    (pre ops : List HOp) (iface : ClassId) (hd : discoverable w (runHist w St.empty pre) iface = true) (r : Ref) :
+    (get w (runHist w (runHist w St.empty pre) ops) iface r).2 = (get w (runHist w St.empty pre) iface r).2 :=
+  get_history_free hw hpo hpk (C20_history_invariant w hw pre) iface hd ops r
 
 /-- Without discoverability the only thing a history can change is to turn a miss into the hit (a module imported
 explicitly or by another lookup registers its providers): after any two histories the answers to one reference are
 never two different classes, and never an error other than the missing-provider error. -/
-theorem C20_history_answers (w : World) (hw : worldClean w = true) (hpo : pathsOk w = true) (hpk : pkgsExist w = true)
-    (ops : List HOp) (iface : ClassId) (r : Ref) (o : List Mod) :
-    (get w (runHist w St.empty ops) iface r o).2 = .error .missing ∨
-      ∃ c, (get w (runHist w St.empty ops) iface r o).2 = .ok c ∧
-        ∀ ops' iface' o' c', (get w (runHist w St.empty ops') iface' r o').2 = .ok c' → c' = c := by
-  have hI := C20_history_invariant w hw hpo ops
-  have huniq : ∀ c, (get w (runHist w St.empty ops) iface r o).2 = .ok c →
-      ∀ ops' iface' o' c', (get w (runHist w St.empty ops') iface' r o').2 = .ok c' → c' = c :=
-    fun c hc ops' iface' o' c' hc' =>
-      (get_unique hw hI.sound (C20_history_invariant w hw hpo ops').sound iface iface' r o o' c c' hc hc').symm
-  cases hb : lookupRef r (getBank iface (runHist w St.empty ops).banks).provider with
-  | some y => exact Or.inr ⟨y, get_of_bound w _ iface r o y hb, huniq y (get_of_bound w _ iface r o y hb)⟩
-  | none =>
-    have hu := get_unbound hw hpo hpk hI iface r o hb
-    cases hf : found w iface r (todoPaths (getBank iface (runHist w St.empty ops).banks) r o) with
-    | false => exact Or.inl (hu.2 hf)
-    | true =>
-      obtain ⟨y, hy⟩ := hu.1 hf
-      exact Or.inr ⟨y, hy, huniq y hy⟩
+theorem C20_history_answers (w : World) (hw : worldClean w = true) (hpo : pathsOk w = true)
+    (ops : List HOp) (iface : ClassId) (r : Ref) :
+    (get w (runHist w St.empty ops) iface r).2 = .error .missing ∨
+      ∃ c, (get w (runHist w St.empty ops) iface r).2 = .ok c ∧
+        ∀ ops' iface' c', (get w (runHist w St.empty ops') iface' r).2 = .ok c' → c' = c := by
+  have hI := C20_history_invariant w hw ops
+  rcases (get_end hw hpo hI iface r).2 with ⟨c, hc, _⟩ | ⟨hm, _, _⟩
+  · exact Or.inr ⟨c, hc, fun ops' iface' c' hc' =>
+      (get_unique hw hI.sound (C20_history_invariant w hw ops').sound iface iface' r c c' hc hc').symm⟩
+  · exact Or.inl hm
+
+/-- Asking twice gives the same answer, at full strength (repaired `Bank.get`, fix
+C20-search-paths-registered-during-lookup; the former `C20_lookup_repeat_full`): after any history in a defect-free world a
+lookup that is repeated at once answers as it did the first time — class or missing-provider error, also when classes
+discovered on the way declare further search paths. -/
+theorem C20_lookup_repeat (w : World) (hw : worldClean w = true) (hpo : pathsOk w = true) (hpk : pkgsExist w = true)
+    (pre : List HOp) (iface : ClassId) (r : Ref) :
+    (get w (get w (runHist w St.empty pre) iface r).1 iface r).2 = (get w (runHist w St.empty pre) iface r).2 :=
+  get_repeat hw hpo hpk (C20_history_invariant w hw pre) iface r
 
 /-- the lazily searched package of the history examples: `ifc.py` (module 0) with `Base(path=[pk1])`; `pk1/__init__.py`
 with `__all__ = [m7]`; `pk1/foo.py` (5) = `Impl(Base, alias=foo)`; `pk1/m7.py` = `Impl(Base, alias=baz)` (alias 8 ≠
@@ -724,31 +702,41 @@ def lazyWorld : World :=
     (⟨1, some 7⟩, ⟨[], [⟨⟨⟨1, some 7⟩, 1⟩, some 8, false, false, [⟨⟨0, none⟩, 0⟩], []⟩]⟩),
     (⟨1, some 9⟩, ⟨[], [⟨⟨⟨1, some 9⟩, 2⟩, some 6, false, false, [⟨⟨0, none⟩, 0⟩], []⟩]⟩) ]
 
-/-- non-vacuity of the history theorems: the world is defect-free; after `import ifc` everything but `pk1.m9` is
+/-- the world of the (fixed) finding C20-F2: `ifc.py` (module 0) with `Base(path=[pk1])`; `pk1/__init__.py` with
+`__all__ = [m5]`; `pk1/m5.py` = abstract `Mid2(Base, path=[pk2])`; `pk2/bar.py` (bar = 7) = `Impl(Base, alias=bar)` -/
+def nestedWorld : World :=
+  [ (⟨0, none⟩, ⟨[], [⟨⟨⟨0, none⟩, 0⟩, none, true, false, [], [⟨1, none⟩]⟩]⟩),
+    (⟨1, none⟩, ⟨[5], []⟩), (⟨2, none⟩, ⟨[], []⟩),
+    (⟨1, some 5⟩, ⟨[], [⟨⟨⟨1, some 5⟩, 1⟩, none, true, false, [⟨⟨0, none⟩, 0⟩], [⟨2, none⟩]⟩]⟩),
+    (⟨2, some 7⟩, ⟨[], [⟨⟨⟨2, some 7⟩, 2⟩, some 7, false, false, [⟨⟨0, none⟩, 0⟩], []⟩]⟩) ]
+
+/-- non-vacuity of the history theorems: the worlds are defect-free; after `import ifc` everything but `pk1.m9` is
 discoverable; a history of two misses, a hit of another reference and a repeated miss leaves `Base['foo']`,
 `Base['baz']` and the unknown `Base['nosuch']` (4) as they were; the undiscoverable alias `qux` is the case
-`C20_history_answers` is about: a miss at once, the class after `Base['pk1.m9:Other']` was looked up -/
+`C20_history_answers` is about: a miss at once, the class after `Base['pk1.m9:Other']` was looked up; in the nested world
+the very first `Base['bar']` finds the provider behind the search path that `pk1.m5:Mid2` registers on the way -/
 example :
     let ifc : ClassId := ⟨⟨0, none⟩, 0⟩
     let pre : List HOp := [.imp ⟨0, none⟩]
-    let hist : List HOp := [.get ifc (.alias 4) [⟨1, none⟩], .get ifc (.qual ⟨⟨1, some 5⟩, 9⟩) [⟨1, none⟩],
-      .get ifc (.alias 8) [⟨1, none⟩], .get ifc (.alias 4) [⟨1, none⟩], .imp ⟨3, some 3⟩]
+    let hist : List HOp := [.get ifc (.alias 4), .get ifc (.qual ⟨⟨1, some 5⟩, 9⟩), .get ifc (.alias 8),
+      .get ifc (.alias 4), .imp ⟨3, some 3⟩]
     let st := runHist lazyWorld St.empty pre
     worldClean lazyWorld = true ∧ pathsOk lazyWorld = true ∧ pkgsExist lazyWorld = true ∧
+      worldClean nestedWorld = true ∧ pathsOk nestedWorld = true ∧ pkgsExist nestedWorld = true ∧
       discoverable lazyWorld st ifc = false ∧
       discoverable (lazyWorld.filter (fun e => e.1 != ⟨1, some 9⟩)) (runHist (lazyWorld.filter (fun e => e.1 != ⟨1, some 9⟩)) St.empty pre) ifc = true ∧
-      (get lazyWorld st ifc (.alias 5) [⟨1, none⟩]).2 = .ok ⟨⟨1, some 5⟩, 1⟩ ∧
-      (get lazyWorld (runHist lazyWorld st hist) ifc (.alias 5) [⟨1, none⟩]).2 = .ok ⟨⟨1, some 5⟩, 1⟩ ∧
-      (get lazyWorld (runHist lazyWorld st hist) ifc (.alias 8) [⟨1, none⟩]).2 = .ok ⟨⟨1, some 7⟩, 1⟩ ∧
-      (get lazyWorld (runHist lazyWorld st hist) ifc (.alias 4) [⟨1, none⟩]).2 = .error .missing ∧
-      (get lazyWorld st ifc (.alias 6) [⟨1, none⟩]).2 = .error .missing ∧
-      (get lazyWorld (runHist lazyWorld st [.get ifc (.qual ⟨⟨1, some 9⟩, 2⟩) [⟨1, none⟩]]) ifc (.alias 6) [⟨1, none⟩]).2
-        = .ok ⟨⟨1, some 9⟩, 2⟩ := by decide
+      (get lazyWorld st ifc (.alias 5)).2 = .ok ⟨⟨1, some 5⟩, 1⟩ ∧
+      (get lazyWorld (runHist lazyWorld st hist) ifc (.alias 5)).2 = .ok ⟨⟨1, some 5⟩, 1⟩ ∧
+      (get lazyWorld (runHist lazyWorld st hist) ifc (.alias 8)).2 = .ok ⟨⟨1, some 7⟩, 1⟩ ∧
+      (get lazyWorld (runHist lazyWorld st hist) ifc (.alias 4)).2 = .error .missing ∧
+      (get lazyWorld st ifc (.alias 6)).2 = .error .missing ∧
+      (get lazyWorld (runHist lazyWorld st [.get ifc (.qual ⟨⟨1, some 9⟩, 2⟩)]) ifc (.alias 6)).2 = .ok ⟨⟨1, some 9⟩, 2⟩ ∧
+      (get nestedWorld (runHist nestedWorld St.empty pre) ifc (.alias 7)).2 = .ok ⟨⟨2, some 7⟩, 2⟩ := by decide
 
 /-- `Bank.get` with the "optimisation" of dropping every search path it has imported from the bank's set (what the
 lazy search state must NOT do): the base paths are also the prefixes the alias candidates are derived from -/
-def getDiscarding (w : World) (st : St) (iface : ClassId) (r : Ref) (order : List Mod) : St × Res :=
-  let res := get w st iface r order
+def getDiscarding (w : World) (st : St) (iface : ClassId) (r : Ref) : St × Res :=
+  let res := get w st iface r
   match lookupRef r (getBank iface st.banks).provider with
   | some _ => res
   | none =>
@@ -756,66 +744,36 @@ def getDiscarding (w : World) (st : St) (iface : ClassId) (r : Ref) (order : Lis
     ({ res.1 with banks := setBank iface ⟨b.provider, []⟩ res.1.banks }, res.2)
 
 def C20_history_discarding_full : Prop :=
-  ∀ (w : World) (st : St) (iface : ClassId) (r r' : Ref) (o : List Mod) (c : ClassId),
-    (get w st iface r o).2 = .ok c → (get w (getDiscarding w st iface r' o).1 iface r o).2 = .ok c
+  ∀ (w : World) (st : St) (iface : ClassId) (r r' : Ref) (c : ClassId),
+    (get w st iface r).2 = .ok c → (get w (getDiscarding w st iface r').1 iface r).2 = .ok c
 
 /-- Why the search paths have to stay: with a consumed search state a valid alias raises the missing-provider error
 after an earlier miss. -/
 theorem C20_history_discarding_counterexample : ¬ C20_history_discarding_full := by
   intro h
-  have := h lazyWorld (runHist lazyWorld St.empty [.imp ⟨0, none⟩]) ⟨⟨0, none⟩, 0⟩ (.alias 5) (.alias 4) [⟨1, none⟩]
+  have := h lazyWorld (runHist lazyWorld St.empty [.imp ⟨0, none⟩]) ⟨⟨0, none⟩, 0⟩ (.alias 5) (.alias 4)
     ⟨⟨1, some 5⟩, 1⟩ (by decide)
   revert this
   decide
 
-end ForML.Bank
-
-namespace ForML.Bank
-
-/-! ## asking twice: search paths registered while a lookup is running -/
-
-/-- Idempotence of a lookup at full strength: in a defect-free world, asking again gives the same answer. -/
-def C20_lookup_repeat_full : Prop :=
+/-- Idempotence of a lookup for `Bank.get` as it was before the repair (`getOnce`: the search list built once). -/
+def C20_lookup_repeat_legacy_full : Prop :=
   ∀ (w : World) (st : St) (iface : ClassId) (r : Ref) (o o' : List Mod),
     worldClean w = true → pathsOk w = true → pkgsExist w = true → Inv w st →
     validOrder (getBank iface st.banks).paths o = true →
-    validOrder (getBank iface (get w st iface r o).1.banks).paths o' = true →
-    (get w (get w st iface r o).1 iface r o').2 = (get w st iface r o).2
+    validOrder (getBank iface (getOnce w st iface r o).1.banks).paths o' = true →
+    (getOnce w (getOnce w st iface r o).1 iface r o').2 = (getOnce w st iface r o).2
 
-/-- the world of finding C20-F2: `ifc.py` (module 0) with `Base(path=[pk1])`; `pk1/__init__.py` with `__all__ = [m5]`;
-`pk1/m5.py` = abstract `Mid2(Base, path=[pk2])`; `pk2/bar.py` (bar = 7) = `Impl(Base, alias=bar)` -/
-def nestedWorld : World :=
-  [ (⟨0, none⟩, ⟨[], [⟨⟨⟨0, none⟩, 0⟩, none, true, false, [], [⟨1, none⟩]⟩]⟩),
-    (⟨1, none⟩, ⟨[5], []⟩), (⟨2, none⟩, ⟨[], []⟩),
-    (⟨1, some 5⟩, ⟨[], [⟨⟨⟨1, some 5⟩, 1⟩, none, true, false, [⟨⟨0, none⟩, 0⟩], [⟨2, none⟩]⟩]⟩),
-    (⟨2, some 7⟩, ⟨[], [⟨⟨⟨2, some 7⟩, 2⟩, some 7, false, false, [⟨⟨0, none⟩, 0⟩], []⟩]⟩) ]
-
-/-- The code that exists does not satisfy it (finding C20-F2): `Bank.get` builds its search list once, so a search path
-that a class discovered by this very lookup declares (`path=`) is not searched by it — `Base['bar']` raises the
-missing-provider error the first time and returns `pk2.bar:Impl` the second time. -/
-theorem C20_lookup_repeat_counterexample : ¬ C20_lookup_repeat_full := by
+/-- Why the repair was needed (finding C20-F2, fixed): with the search list built once, a search path that a class
+discovered by this very lookup declares (`path=`) is not searched by it — `Base['bar']` raises the missing-provider
+error the first time and returns `pk2.bar:Impl` the second time. -/
+theorem C20_lookup_repeat_legacy_counterexample : ¬ C20_lookup_repeat_legacy_full := by
   intro h
   have := h nestedWorld (runHist nestedWorld St.empty [.imp ⟨0, none⟩]) ⟨⟨0, none⟩, 0⟩ (.alias 7) [⟨1, none⟩]
     [⟨1, none⟩, ⟨2, none⟩] (by decide) (by decide) (by decide)
-    (C20_history_invariant nestedWorld (by decide) (by decide) [.imp ⟨0, none⟩]) (by decide) (by decide)
+    (C20_history_invariant nestedWorld (by decide) [.imp ⟨0, none⟩]) (by decide) (by decide)
   revert this
   decide
-
-/-- It holds whenever no class that is still to be discovered declares search paths (`pathsSettled`, decidable — in
-forml itself only the interfaces declare `path=`): then a repeated lookup answers as the first one did, hit or miss. -/
-theorem C20_lookup_repeat_partial (w : World) (hw : worldClean w = true) (hpo : pathsOk w = true) (hpk : pkgsExist w = true)
-    (pre : List HOp) (hset : pathsSettled w (runHist w St.empty pre) = true) (iface : ClassId) (r : Ref) (o o' : List Mod)
-    (ho : validOrder (getBank iface (runHist w St.empty pre).banks).paths o = true)
-    (ho' : validOrder (getBank iface (get w (runHist w St.empty pre) iface r o).1.banks).paths o' = true) :
-    (get w (get w (runHist w St.empty pre) iface r o).1 iface r o').2 = (get w (runHist w St.empty pre) iface r o).2 :=
-  get_repeat hw hpo hpk (C20_history_invariant w hw hpo pre) hset iface r o o' ho ho'
-
-/-- non-vacuity of `C20_lookup_repeat_partial`: the lazily searched package of the history examples is settled once the
-interface module is imported; the nested world is not -/
-example :
-    pathsSettled lazyWorld (runHist lazyWorld St.empty [.imp ⟨0, none⟩]) = true ∧
-      pathsSettled nestedWorld (runHist nestedWorld St.empty [.imp ⟨0, none⟩]) = false ∧
-      pathsSettled nestedWorld (runHist nestedWorld St.empty [.imp ⟨0, none⟩, .imp ⟨1, some 5⟩]) = true := by decide
 
 end ForML.Bank
 
